@@ -86,6 +86,14 @@ def _recording(decorator_factory):
             rec.calls += 1
             key = (args, tuple(sorted(kwargs.items())))
             ent = rec.entries.get(key)
+            if ent is not None and any(a is not b for a, b in zip(args, ent["args"])) and rec.name not in KEY_COLLISIONS:
+                # a hit through EQUAL but not identical arguments: if they are distinguishable (repr) the
+                # memo key must still determine the result
+                try:
+                    if repr(args) != repr(ent["args"]) and deep(rec.fn(*args, **kwargs)) != deep(res):
+                        KEY_COLLISIONS.append(rec.name)
+                except Exception:  # noqa: BLE001
+                    pass
             if ent is None:
                 rec.entries[key] = {"obj": res, "snap": snap(res), "args": args, "kwargs": kwargs,
                                     "deep0": deep(res) if has_mutable(res) else None}
@@ -117,6 +125,7 @@ def _cache(fn):
 
 
 MEMO_MUTABLE_CALLS: list = []
+KEY_COLLISIONS: list = []  # memoised functions whose key equates arguments that give different results
 functools.lru_cache = _lru_cache
 functools.cache = _cache
 
@@ -180,8 +189,9 @@ def check_memo_writes() -> list:
 
 
 def check_memo_stale() -> list:
-    """Functions whose un-memoised recomputation now differs from the value stored at insertion."""
-    out = []
+    """Functions whose un-memoised recomputation now differs from the value stored at insertion, or whose
+    key equated arguments that give different results."""
+    out = list(KEY_COLLISIONS)
     for rec in RECORDERS:
         raw = rec.fn
         for ent in list(rec.entries.values()):
@@ -281,6 +291,21 @@ def permuted(topology):
 INFO: dict = {}  # name -> tables computed once by the `info` mode in ANOTHER process
 
 
+def twin_reaction(reaction):
+    from qrules.transition import ReactionInfo, State  # noqa: PLC0415
+
+    inter = set(reaction.get_intermediate_particles().names)
+
+    def twin(p):
+        if p.name not in inter:
+            return p
+        return attrs.evolve(p, name="X" + p.name, latex="X[" + (p.latex or p.name) + "]")
+
+    transitions = [attrs.evolve(t, states={i: State(twin(st.particle), st.spin_projection) for i, st in t.states.items()})
+                   for t in reaction.transitions]
+    return ReactionInfo(transitions, formalism=reaction.formalism)
+
+
 class RInfo:
     def __init__(self, name: str):
         self.name = name
@@ -290,10 +315,16 @@ class RInfo:
             self.variants.append(relabel_edge_ids(r0))
         except Exception:  # noqa: BLE001
             self.variants.append(r0)
+        # variants 2, 3: TWIN reactions — every resonance is a particle with the same quantum numbers, mass and
+        # width but another name and LaTeX (qrules' Particle.__eq__/__hash__ ignore name, pid and latex, so
+        # the twin compares EQUAL to the original: anything memoised on particles/states/transitions/reactions
+        # must not depend on what the particle is called)
+        self.variants += [twin_reaction(r) for r in self.variants[:2]]
         self.canonical = "canonical" in (r0.formalism or "")
-        self.resonances = sorted(r0.get_intermediate_particles().names)
+        self.resonances_of = [sorted(r.get_intermediate_particles().names) for r in self.variants]
+        self.resonances = self.resonances_of[0]
         self.universe, self.base, self.perms = [], [], []
-        self.rdigest = [None, None]
+        self.rdigest = [None, None, None, None]
         if name in INFO:
             # rebuild the topology tables from data: no ampform function runs before the first operation
             from qrules.topology import Edge, Topology  # noqa: PLC0415
@@ -393,7 +424,8 @@ class Executor:
                     "ls": "insert_ls_combinations"}[op[2]]
             setattr(b.naming, attr, bool(op[3]))
         elif kind == "assign":
-            b.dynamics.assign(self.ri.resonances[op[2] % len(self.ri.resonances)], DYN[op[3]])
+            names = self.ri.resonances_of[v]
+            b.dynamics.assign(names[op[2] % len(names)], DYN[op[3]])
         elif kind == "assigndecay":
             # the two by-node overloads of DynamicsSelector.assign: TwoBodyDecay and (transition, node_id)
             from ampform.helicity.decay import TwoBodyDecay  # noqa: PLC0415
@@ -507,6 +539,10 @@ def probe_histories() -> list:
                 ["stable", 0, None], ["formulate", 0, []],
             ]})
     for name in PROBE_REACTIONS:
+        hs.append({"id": f"probe:{name}:twin", "reaction": name, "ops": [
+            ["new", 0], ["helcoup", 0, True], ["formulate", 0, []], ["new", 2], ["helcoup", 1, True], ["formulate", 1, []],
+            ["new", 3], ["align", 2, 11], ["formulate", 2, []], ["new", 1], ["align", 3, 11], ["formulate", 3, []],
+        ]})
         hs.append({"id": f"probe:{name}:dyn", "reaction": name, "ops": [
             ["new", 0], ["assign", 0, 0, 5], ["formulate", 0, []], ["assign", 0, 0, 1], ["formulate", 0, []],
             ["new", 0], ["assign", 1, 0, 10], ["assign", 1, 1, 7], ["formulate", 1, []],
@@ -636,8 +672,8 @@ def main():
                          "perms": ri.perms, "n_topos": [len(u) for u in ri.universe],
                          "n_final": len(ri.variants[0].final_state), "n_dyn": len(DYN),
                          "decays_of": [[[i for i, d in enumerate(ampform.get_builder(r).dynamics)
-                                         if d.parent.particle.name == nm] for nm in ri.resonances]
-                                       for r in ri.variants],
+                                         if d.parent.particle.name == nm] for nm in ri.resonances_of[vv]]
+                                       for vv, r in enumerate(ri.variants)],
                          "n_decays": [len(ampform.get_builder(r).dynamics) for r in ri.variants],
                          "universe": [[{"nodes": sorted(t.nodes),
                                         "edges": {str(i): [e.originating_node_id, e.ending_node_id]
